@@ -21,7 +21,7 @@ RULE = ("a case = one random labelled continuum + one pooled dissimilarity; ever
         "every continuum argument and (delta_empty, alpha, beta, categories, matrix bytes, kernel identity, components) "
         "of the dissimilarity; then each derived continuum (copy, merge result, + result, sampler outputs, chance "
         "samples of a gamma, generated corpora, c[annotator]) and the source are mutated in turn by a random script "
-        "(add with a brand-new label, remove, add_annotator, reset_bounds, in-place merge) and the other side is "
+        "(add with a brand-new label, remove, add_annotator, reset_bounds, in-place merge, an in-place perturbation of the corpus shuffling tool) and the other side is "
         "re-snapshotted. non-trivial = continuum with >= 2 units; distinct by SHA-1 of the case")
 ASSUMPTIONS = [
     "only documented exception: compute_gamma(fast=True) and measure_best_window_size may change best_window_size",
@@ -79,9 +79,24 @@ def mutate(rng, c, tag):
     """Random mutation script on a continuum (brand-new label, remove, new annotator, reset, in-place merge)."""
     from pyannote.core import Segment
     from pygamma_agreement import Continuum
-    ops = rng.sample(["add-new-label", "remove", "add-annotator", "reset", "merge", "add-existing"], rng.randint(2, 5))
+    ops = rng.sample(["add-new-label", "remove", "add-annotator", "reset", "merge", "add-existing", "shuffling-tool-in-place"], rng.randint(2, 5))
     for op in ops:
         anns = list(c.annotators)
+        if op == "shuffling-tool-in-place":
+            # the corpus shuffling tool's public perturbations work IN PLACE on the continuum they are given
+            from pygamma_agreement import CorpusShufflingTool
+            donors = [a for a in anns if len(c._annotations[a]) >= 1 and all(u.annotation is not None for u in c._annotations[a])]
+            if not donors:
+                continue
+            ref = Continuum()
+            for u in c._annotations[donors[0]]:
+                ref.add("ref", Segment(u.segment.start, u.segment.end), u.annotation)
+            try:
+                tool = CorpusShufflingTool(0.6, ref)
+                getattr(tool, rng.choice(["splits_shuffle", "splits_shuffle", "shift_shuffle", "false_neg_shuffle", "false_pos_shuffle", "category_shuffle"]))(c)
+            except Exception:
+                pass        # whether the perturbation accepts this continuum is C19's business; here only the OTHER continuum is looked at
+            continue
         if op == "add-new-label":
             c.add(rng.choice(anns) if anns else "solo", Segment(900.0 + rng.random(), 950.0), f"NEW-{tag}-{rng.randrange(1000)}")
         elif op == "add-existing" and anns:
